@@ -11,7 +11,7 @@ Reference unfolder, written from the statement of C07.
    5. a trailing query is applied to every typed search, dropping those it does not fit.
   Errors: SpilException for an untypable root before '**' or more than one '**'.
 
-Results are (type, string) pairs.  Whitespace and ':' are outside the reference (preconditions of the
+Results are (type, string) pairs.  Alternatives of a ',' list are stripped of surrounding blanks; other whitespace and ':' are outside the reference (preconditions of the
 obligations); query keys / values are free of URL metacharacters.
 """
 from __future__ import annotations
@@ -35,6 +35,7 @@ def _conf():
 def expand_alias_list(text: str, alias: Dict[str, List[str]]) -> List[str]:
     out: List[str] = []
     for alt in text.split(","):
+        alt = alt.strip()                    # lists may be written with blanks after the commas ('maya, mov')
         for member in alias.get(alt, [alt]):
             if member not in out:
                 out.append(member)
@@ -71,7 +72,7 @@ def unfold_ref(s: str) -> List[Tuple[str, str]]:
         if i == len(segs) - 1:
             seg_alts.append(expand_alias_list(seg, alias) if seg != "" else [""])
         else:
-            seg_alts.append(seg.split(","))
+            seg_alts.append([a.strip() for a in seg.split(",")] if "," in seg else [seg])
     paths = ["/".join(p) for p in product(seg_alts)]
     qpairs = split_query(query) if query else []
     q_alts: List[List[Tuple[str, str]]] = []
@@ -79,7 +80,7 @@ def unfold_ref(s: str) -> List[Tuple[str, str]]:
         if k in leaf_names:
             vals = expand_alias_list(v, alias)
         else:
-            vals = v.split(",")
+            vals = [a.strip() for a in v.split(",")] if "," in v else [v]
         q_alts.append([(k, x) for x in vals])
     queries = ["&".join(k + "=" + v for k, v in combo) for combo in product(q_alts)] if qpairs else [""]
 
